@@ -1247,6 +1247,12 @@ func staleCapacityReslices(p *Program, fn *ssa.Function) (int, []Finding) {
 			if cleared {
 				continue
 			}
+			// a buffer the caller hands in for this very call (an operand other than the receiver,
+			// or a field of a by-value configuration struct) is the caller's memory: reusing its
+			// capacity as documented output space keeps no state of the library across calls
+			if callerProvidedBuffer(fn, sl.X) {
+				continue
+			}
 			hits = append(hits, Finding{fn, sl.Pos(), "reslice-into-capacity(" + descValue(sl.X, 0) + ")",
 				funcKey(fn) + ": " + descValue(sl.X, 0) + " is resliced up to a bound taken from its capacity: the elements beyond its length are whatever the backing array held before (a value that was longer once), they become part of the result without being cleared"})
 		}
@@ -1559,6 +1565,111 @@ func chunkRemainderDropped(p *Program, fn *ssa.Function) (int, []Finding) {
 
 func sameValueOrConstMinus1(a, b ssa.Value) bool { return false }
 
+// strideRemainderDropped: `for i := a; i+k <= n; i += k { go work(i, i+k) }` hands out full strides
+// only: unless the function looks at n again (a clamp `if end > n`, a tail after the loop, n % k)
+// the last n - a mod k positions are never processed.
+func strideRemainderDropped(p *Program, fn *ssa.Function) (int, []Finding) {
+	n := 0
+	var hits []Finding
+	for _, l := range loopsOf(fn) {
+		if len(l.header.Instrs) == 0 {
+			continue
+		}
+		iff, ok := l.header.Instrs[len(l.header.Instrs)-1].(*ssa.If)
+		if !ok {
+			continue
+		}
+		a := atomOf(iff.Cond)
+		if a.Kind != "cmp" || (a.Op != token.LEQ && a.Op != token.LSS) {
+			continue
+		}
+		sum, ok := stripConv(a.X).(*ssa.BinOp)
+		if !ok || sum.Op != token.ADD {
+			continue
+		}
+		var phi *ssa.Phi
+		var k ssa.Value
+		for _, pr := range [][2]ssa.Value{{sum.X, sum.Y}, {sum.Y, sum.X}} {
+			if ph, isPhi := stripConv(pr[0]).(*ssa.Phi); isPhi && ph.Block() == l.header {
+				phi, k = ph, pr[1]
+			}
+		}
+		if phi == nil {
+			continue
+		}
+		if _, isConst := constInt(k); isConst {
+			continue // i+1 < n and the like: element loops, not strides
+		}
+		// the counter advances by the same k
+		adv := false
+		for _, e := range phi.Edges {
+			if inc, ok := stripConv(e).(*ssa.BinOp); ok && inc.Op == token.ADD {
+				if (stripConv(inc.X) == ssa.Value(phi) && sameValue(inc.Y, k, 0)) || (stripConv(inc.Y) == ssa.Value(phi) && sameValue(inc.X, k, 0)) {
+					adv = true
+				}
+			}
+		}
+		if !adv {
+			continue
+		}
+		spawns := false
+		for bi := range l.blocks {
+			for _, li := range fn.Blocks[bi].Instrs {
+				if _, isGo := li.(*ssa.Go); isGo {
+					spawns = true
+				}
+			}
+		}
+		if !spawns {
+			continue
+		}
+		n++
+		bound := stripConv(a.Y)
+		treated := false
+		for _, ob := range fn.Blocks {
+			// only what happens inside the loop (a clamp) or after it (a tail) treats the remainder
+			if !l.blocks[ob.Index] && !(l.header.Dominates(ob) && ob != l.header) {
+				continue
+			}
+			for _, oi := range ob.Instrs {
+				switch x := oi.(type) {
+				case *ssa.BinOp:
+					if x == iff.Cond {
+						continue
+					}
+					switch x.Op {
+					case token.LSS, token.GTR, token.LEQ, token.GEQ, token.NEQ, token.EQL:
+						if sameValue(x.X, bound, 0) || sameValue(x.Y, bound, 0) {
+							treated = true
+						}
+					case token.REM:
+						if sameValue(x.Y, k, 0) {
+							treated = true
+						}
+					case token.SUB:
+						if sameValue(x.X, bound, 0) && !l.blocks[ob.Index] {
+							treated = true
+						}
+					}
+				case *ssa.Call:
+					if bi, ok := x.Call.Value.(*ssa.Builtin); ok && bi.Name() == "min" {
+						for _, arg := range x.Call.Args {
+							if sameValue(arg, bound, 0) {
+								treated = true
+							}
+						}
+					}
+				}
+			}
+		}
+		if !treated {
+			hits = append(hits, Finding{fn, iff.Cond.Pos(), "stride-remainder(" + descValue(bound, 0) + ")",
+				fmt.Sprintf("%s: the loop hands a full stride to a goroutine while %s, and nothing else in the function looks at %s (no clamp of the end position, no tail, no remainder): the positions after the last full stride are never processed", funcKey(fn), descValue(iff.Cond, 0), descValue(bound, 0))})
+		}
+	}
+	return n, hits
+}
+
 // ---------------------------------------------------------------------------------------------
 // NARROW-BEFORE-REDUCE: `T(v) % m` with T narrower than the type of v reduces v mod 2^bits first:
 // the residue is wrong for every v >= 2^bits unless m divides 2^bits. Accepted: a source already
@@ -1841,4 +1952,52 @@ func elementAliasHazard(p *Program, fn *ssa.Function) (int, []Finding) {
 		}
 	}
 	return n, hits
+}
+
+// callerProvidedBuffer: the slice value is a non-receiver parameter of fn or a field read out of
+// a by-value struct parameter (not reached through the receiver or any pointer kept elsewhere).
+func callerProvidedBuffer(fn *ssa.Function, v ssa.Value) bool {
+	first := 0
+	if fn.Signature.Recv() != nil {
+		first = 1
+	}
+	isOperand := func(x ssa.Value) bool {
+		for i := first; i < len(fn.Params); i++ {
+			if x == ssa.Value(fn.Params[i]) {
+				return true
+			}
+		}
+		return false
+	}
+	for d := 0; d < 8; d++ {
+		switch x := v.(type) {
+		case *ssa.Parameter:
+			return isOperand(x)
+		case *ssa.Field:
+			v = x.X
+		case *ssa.Slice:
+			v = x.X
+		case *ssa.ChangeType:
+			v = x.X
+		case *ssa.UnOp:
+			// load of a field of a by-value struct parameter spilled to a local cell
+			fa, ok := x.X.(*ssa.FieldAddr)
+			if !ok {
+				return false
+			}
+			al, ok := fa.X.(*ssa.Alloc)
+			if !ok || al.Referrers() == nil {
+				return false
+			}
+			for _, r := range *al.Referrers() {
+				if st, ok := r.(*ssa.Store); ok && st.Addr == ssa.Value(al) {
+					return isOperand(st.Val)
+				}
+			}
+			return false
+		default:
+			return false
+		}
+	}
+	return false
 }
